@@ -1,5 +1,6 @@
 import FlowRecord.Drive.Util
 import FlowRecord.Model.Descriptor
+import FlowRecord.Model.Render
 open Lean
 namespace FlowRecord.Drive
 
@@ -81,7 +82,11 @@ def handleC06 : Handler := fun op j =>
         ("ok", Json.bool (match r with | .ok _ => true | .error _ => false)),
         ("error", match r with | .ok _ => Json.null | .error e => Json.str (c06ErrName e)),
         ("slots", match r with | .ok sl => Json.arr (sl.map textJson).toArray | .error _ => Json.null),
-        ("imports", c06ImportsOf eff)])
+        ("imports", c06ImportsOf eff),
+        -- the text handed to `exec` (the generation step is reached iff validation passed)
+        ("source", match r with
+          | .ok _ | .error .execFails => textJson (Render.render ⟨name, fields⟩)
+          | .error _ => Json.null)])
   | _ => none
 
 end FlowRecord.Drive
